@@ -211,7 +211,7 @@ def run_job(job, acc):
         before = sorted(os.listdir(scratch))
         for i in range(n):
             stmts, tops, descs, wp, wdescs = make_case(r)
-            text, _, _ = gast.print_grammar(stmts)
+            text, _, _ = gast.print_grammar(stmts, enc_rng=r if i % 3 == 0 else None)   # now and then: alternative spellings (escapes, continuations in descriptions)
             special = any(c in SPECIAL[:24] for t in tops + list(descs.values()) for c in t)
             scripts = {}
             for shell in common.SHELLS:
